@@ -460,7 +460,11 @@ def finish(prop, tier, seed, spec, obres, status, t_start, extra, evidence_path)
     if status["violations"]:
         return 1
     if status["inconclusive"]:
-        for m in status["inconclusive"][:20]:
+        seen_m = []
+        for m in status["inconclusive"]:
+            if m not in seen_m:
+                seen_m.append(m)
+        for m in seen_m[:20]:
             print("INCONCLUSIVE property=%s reason=%s" % (prop, m))
         return 2
     print("OK property=%s tier=%s obligations=%d assertion_instances=%d discharged=%d paths=%d solver_queries=%d solver_s=%.1f validated=%d wall=%.0fs"
